@@ -3,8 +3,11 @@
 package gtree
 
 import (
+	"fmt"
 	"os"
 	"path/filepath"
+
+	"github.com/fatih/color"
 )
 
 // Contracts for the gvc verifier (/verif). This file is compiled only with the build tag
@@ -564,7 +567,7 @@ func specPreorderAll(roots []*Node, i int) []*Node {
 // simple_tree.go
 
 // simpleTreeOK(t, cfg): t is the treeSimple that newTreeSimple builds for cfg.
-//@ pred simpleTreeOK(t *treeSimple, cfg *config): t != nil && cfg != nil && t.grower != nil && t.spreader != nil && t.growSpreader != nil && t.walker != nil && t.mkdirer != nil && t.verifier != nil && (cfg.encode != encodeDefault ==> isType(t.grower, nopGrowerSimple)) && (cfg.encode == encodeDefault ==> isType(t.grower, defaultGrowerSimple) && as(t.grower, defaultGrowerSimple).lastNodeFormat == cfg.lastNodeFormat && as(t.grower, defaultGrowerSimple).intermedialNodeFormat == cfg.intermedialNodeFormat) && (cfg.dryrun ==> isType(t.spreader, colorizeSpreaderSimple)) && (!cfg.dryrun && cfg.encode == encodeDefault ==> isType(t.spreader, defaultSpreaderSimple)) && (!cfg.dryrun && cfg.encode >= encodeJSON && cfg.encode <= encodeTOML ==> isType(t.spreader, formattedSpreaderSimple)) && isType(t.growSpreader, defaultGrowSpreaderSimple) && as(t.growSpreader, defaultGrowSpreaderSimple).defaultGrowerSimple != nil && as(t.growSpreader, defaultGrowSpreaderSimple).defaultGrowerSimple.lastNodeFormat == cfg.lastNodeFormat && as(t.growSpreader, defaultGrowSpreaderSimple).defaultGrowerSimple.intermedialNodeFormat == cfg.intermedialNodeFormat && !as(t.growSpreader, defaultGrowSpreaderSimple).defaultGrowerSimple.enabledValidation && isType(t.walker, defaultWalkerSimple) && isType(t.mkdirer, defaultMkdirerSimple) && as(t.mkdirer, defaultMkdirerSimple).fileConsiderer != nil && as(t.mkdirer, defaultMkdirerSimple).fileConsiderer.extensions == cfg.fileExtensions && as(t.mkdirer, defaultMkdirerSimple).targetDir == (len(cfg.targetDir) != 0 ? cfg.targetDir : ".") && isType(t.verifier, defaultVerifierSimple)
+//@ pred simpleTreeOK(t *treeSimple, cfg *config): t != nil && cfg != nil && t.grower != nil && t.spreader != nil && t.growSpreader != nil && t.walker != nil && t.mkdirer != nil && t.verifier != nil && (cfg.encode != encodeDefault ==> isType(t.grower, nopGrowerSimple)) && (cfg.encode == encodeDefault ==> isType(t.grower, defaultGrowerSimple) && as(t.grower, defaultGrowerSimple).lastNodeFormat == cfg.lastNodeFormat && as(t.grower, defaultGrowerSimple).intermedialNodeFormat == cfg.intermedialNodeFormat && as(t.grower, defaultGrowerSimple).enabledValidation == cfg.dryrun) && (cfg.dryrun ==> isType(t.spreader, colorizeSpreaderSimple) && colorizeOK(as(t.spreader, colorizeSpreaderSimple)) && as(t.spreader, colorizeSpreaderSimple).fileConsiderer.extensions == cfg.fileExtensions) && (!cfg.dryrun && !(cfg.encode >= encodeJSON && cfg.encode <= encodeTOML) ==> isType(t.spreader, defaultSpreaderSimple)) && (!cfg.dryrun && cfg.encode >= encodeJSON && cfg.encode <= encodeTOML ==> isType(t.spreader, formattedSpreaderSimple)) && isType(t.growSpreader, defaultGrowSpreaderSimple) && as(t.growSpreader, defaultGrowSpreaderSimple).defaultGrowerSimple != nil && as(t.growSpreader, defaultGrowSpreaderSimple).defaultGrowerSimple.lastNodeFormat == cfg.lastNodeFormat && as(t.growSpreader, defaultGrowSpreaderSimple).defaultGrowerSimple.intermedialNodeFormat == cfg.intermedialNodeFormat && !as(t.growSpreader, defaultGrowSpreaderSimple).defaultGrowerSimple.enabledValidation && isType(t.walker, defaultWalkerSimple) && isType(t.mkdirer, defaultMkdirerSimple) && as(t.mkdirer, defaultMkdirerSimple).fileConsiderer != nil && as(t.mkdirer, defaultMkdirerSimple).fileConsiderer.extensions == cfg.fileExtensions && as(t.mkdirer, defaultMkdirerSimple).targetDir == (len(cfg.targetDir) != 0 ? cfg.targetDir : ".") && isType(t.verifier, defaultVerifierSimple) && as(t.verifier, defaultVerifierSimple).strict == cfg.strictVerify && as(t.verifier, defaultVerifierSimple).targetDir == (len(cfg.targetDir) != 0 ? cfg.targetDir : ".")
 
 //@ func gtree.newTreeSimple
 //@   requires nn: cfg != nil
@@ -573,9 +576,14 @@ func specPreorderAll(roots []*Node, i int) []*Node {
 
 // Placeholders (assumed, not yet verified): refined by the C04 / C09 contracts.
 //@ func gtree.colorizeSpreaderSimple.spread
-//@   assumed
-//@   modifies out, wfail, counter.n
+//@   requires ok: colorizeOK(cs)
+//@   requires roots: forall k int :: {roots[k]} 0 <= k && k < len(roots) ==> roots[k] != nil
+//@   modifies out, wfail, cs.fileCounter.n, cs.dirCounter.n
+//@   ensures report [C09]: result == nil ==> out[w] == old(out[w]) ++ specDryReport(cs.fileColor, cs.dirColor, cs.fileConsiderer.extensions, roots, len(roots)) && wfail == old(wfail)
+//@   ensures fail [C14]: result != nil ==> wfail
 //@   ensures sticky: old(wfail) ==> wfail
+//@ loop gtree.colorizeSpreaderSimple.spread#1
+//@   invariant sofar: ret == specDryReport(cs.fileColor, cs.dirColor, cs.fileConsiderer.extensions, roots, $i)
 //@ func gtree.formattedSpreaderSimple.spread
 //@   assumed
 //@   modifies out, wfail
@@ -701,8 +709,10 @@ func allRootsT(rs []*Node) bool { return true }
 //@   requires ok: simpleTreeOK(t, cfg)
 //@   modifies Node.children, Node.parent, Node.brnch.value, Node.brnch.path, list.List.view, list.Element.backOf, counter.n, bufio.Scanner.pos, bufio.Scanner.failed, markdown.Parser.isSharpRoot, markdown.Parser.spaces, markdown.Parser.sep, out, wfail, defaultSpreaderSimple.w
 //@   use lemma lemmaRawAllIsRenderAll
-//@   ensures accepted [C14]: cfg.encode == encodeDefault && !cfg.dryrun && result == nil ==> old(wfail) || !wfail
+//@   ensures accepted [C14]: cfg.encode == encodeDefault && result == nil ==> old(wfail) || !wfail
 //@   ensures render [C01]: cfg.noUseIterOfSimpleOutput && cfg.encode == encodeDefault && !cfg.dryrun && result == nil ==> (exists rs []*Node :: {witness(roots)} allRoots(rs) && out[w] == old(out[w]) ++ specRenderAll(cfg.lastNodeFormat, cfg.intermedialNodeFormat, rs, len(rs)))
+//@   ensures report [C09]: cfg.noUseIterOfSimpleOutput && cfg.encode == encodeDefault && cfg.dryrun && result == nil ==> (exists rs []*Node :: {witness(roots)} allRoots(rs) && (forall k int :: {rs[k]} 0 <= k && k < len(rs) ==> validated(rs[k])) && out[w] == old(out[w]) ++ specDryReport(as(t.spreader, colorizeSpreaderSimple).fileColor, as(t.spreader, colorizeSpreaderSimple).dirColor, cfg.fileExtensions, rs, len(rs)))
+//@   ensures dryfs [C09]: fsOps == old(fsOps) && fsFailed == old(fsFailed)
 //@   ensures sticky [C14]: cfg.noUseIterOfSimpleOutput && old(wfail) ==> wfail
 
 //@ func gtree.treeSimple.walk
@@ -739,6 +749,7 @@ func lemmaRawAllIsRenderAll(last, mid branchFormat, roots []*Node, i int) {
 //@ contract fromMarkdownOutput
 //@   modifies Node.children, Node.parent, Node.brnch.value, Node.brnch.path, list.List.view, list.Element.backOf, counter.n, bufio.Scanner.pos, bufio.Scanner.failed, markdown.Parser.isSharpRoot, markdown.Parser.spaces, markdown.Parser.sep, out, wfail, defaultSpreaderSimple.w
 //@   ensures render [C01,C03,C12,C14]: exists c *config :: {c.massive} fresh(c) && (!c.massive && c.encode == encodeDefault && !c.dryrun && result == nil ==> (old(wfail) || !wfail) && (c.noUseIterOfSimpleOutput ==> (exists rs []*Node :: allRoots(rs) && out[w] == old(out[w]) ++ specRenderAll(c.lastNodeFormat, c.intermedialNodeFormat, rs, len(rs)))))
+//@   ensures dryfs [C09]: fsOps == old(fsOps) && fsFailed == old(fsFailed)
 //@ applies fromMarkdownOutput to gtree.OutputFromMarkdown, gtree.Output
 
 //@ contract fromMarkdownWalk
@@ -816,9 +827,16 @@ func lemmaRawAllIsRenderAll(last, mid branchFormat, roots []*Node, i int) {
 //@   param rootIter follows grownStream
 //@   yields errStream
 //@ func gtree.colorizeSpreaderSimple.spreadIter
-//@   assumed
+//@   requires ok: colorizeOK(cs)
 //@   param rootIter follows grownStream
 //@   yields errStream
+//@ closure gtree.colorizeSpreaderSimple.spreadIter#1
+//@   yields errStream
+//@   requires ok: colorizeOK(cs)
+//@   modifies Node.children, Node.parent, list.List.view, list.Element.backOf, counter.n, bufio.Scanner.pos, bufio.Scanner.failed, markdown.Parser.isSharpRoot, markdown.Parser.spaces, markdown.Parser.sep, Node.brnch.value, Node.brnch.path, out, wfail, defaultSpreaderSimple.w
+//@ loop gtree.colorizeSpreaderSimple.spreadIter#1#1
+//@   invariant ok: colorizeOK(cs)
+//@   invariant quiet [C14]: old(wfail) || !wfail
 
 // ---------------------------------------------------------------------------------------------
 // file_considerer.go, simple_tree_mkdirer.go — over the trace model of /verif/gvc/trusted/fs.spec
@@ -975,6 +993,7 @@ func fsExistsAt(p string) bool { _, err := os.Stat(p); return !os.IsNotExist(err
 //@   ensures validated [C07]: cfg.encode == encodeDefault && fsOps != old(fsOps) ==> validated(root)
 //@   ensures failed [C06]: !cfg.dryrun && result == nil ==> fsFailed == old(fsFailed)
 //@   ensures dryrun [C09]: cfg.dryrun ==> fsOps == old(fsOps) && fsFailed == old(fsFailed)
+//@   ensures report [C09]: cfg.dryrun && cfg.encode == encodeDefault && result == nil ==> validated(root) && out[color.Output] == old(out[color.Output]) ++ specDry(as(t.spreader, colorizeSpreaderSimple).fileColor, as(t.spreader, colorizeSpreaderSimple).dirColor, cfg.fileExtensions, root) ++ "\n" ++ specFmtCounts(specCountDirs(cfg.fileExtensions, root), specCountFiles(cfg.fileExtensions, root)) ++ "\n"
 
 //@ func gtree.treePipeline.mkdir
 //@   assumed
@@ -995,3 +1014,222 @@ func fsExistsAt(p string) bool { _, err := os.Stat(p); return !os.IsNotExist(err
 //@   ensures notroot [C03]: root != nil && root.hierarchy != 1 ==> result == ErrNotRoot && fsOps == old(fsOps)
 //@   ensures mkdir [C03,C06,C07,C09,C12]: root != nil && root.hierarchy == 1 ==> (exists c *config :: {c.massive} fresh(c) && (!c.massive && c.encode == encodeDefault ==> (c.dryrun ==> fsOps == old(fsOps) && fsFailed == old(fsFailed)) && (!c.dryrun && result == nil ==> fsFailed == old(fsFailed) && !fsExistsAt(fpJoin2((len(c.targetDir) != 0 ? c.targetDir : "."), root.name)) && fsOps == old(fsOps) ++ specMkOps((len(c.targetDir) != 0 ? c.targetDir : "."), c.fileExtensions, root)) && (fsOps != old(fsOps) ==> validated(root))))
 //@ applies fromRootMkdir to gtree.MkdirFromRoot, gtree.MkdirProgrammably
+
+// ---------------------------------------------------------------------------------------------
+// simple_tree_verifier.go
+
+// specPathIn: x is the target-joined path of a node of the subtree of n.
+//@ spec gtree.specPathIn
+//@   requires nn: n != nil
+//@   decreases down(n), 1, 0
+func specPathIn(target string, n *Node, x string) bool {
+	return x == fpJoin2(target, specNodePath(n)) || specPathInKids(target, n, x, len(n.children))
+}
+
+//@ spec gtree.specPathInKids
+//@   requires nn: n != nil
+//@   decreases down(n), 0, i
+func specPathInKids(target string, n *Node, x string, i int) bool {
+	if i <= 0 || i > len(n.children) {
+		return false
+	}
+	return specPathInKids(target, n, x, i-1) || specPathIn(target, n.children[i-1], x)
+}
+
+//@ func gtree.defaultVerifierSimple.fillDirsMarkdown
+//@   requires nn: dv != nil && node != nil && dirs != nil
+//@   modifies maps
+//@   decreases down(node)
+//@   ensures filled [C08]: forall x string :: {inSet(maps[dirs], x)} inSet(maps[dirs], x) == (old(inSet(maps[dirs], x)) || specPathIn(dv.targetDir, node, x))
+//@   ensures frame: forall m any :: {maps[m]} m != dirs ==> maps[m] == old(maps[m])
+//@   ensures ok [C08]: result == nil
+//@ loop gtree.defaultVerifierSimple.fillDirsMarkdown#1
+//@   invariant sofar: forall x string :: {inSet(maps[dirs], x)} inSet(maps[dirs], x) == (old(inSet(maps[dirs], x)) || x == fpJoin2(dv.targetDir, specNodePath(node)) || specPathInKids(dv.targetDir, node, x, $i))
+//@   invariant frame: forall m any :: {maps[m]} m != dirs ==> maps[m] == old(maps[m])
+
+// verifyRoot walks the real directory with fs.WalkDir and a callback closure; the higher-order library call is outside
+// the verified subset, so its contract is assumed: fsEntryUnder(d, x) — x is an entry (including d itself) that the
+// walk of directory d visits; fsMissingDir(d) — d does not exist.
+//@ logic fsEntryUnder(d string, x string) bool
+//@ logic fsMissingDir(d string) bool
+//@ func gtree.defaultVerifierSimple.verifyRoot
+//@   assumed
+//@   requires nn: dv != nil && root != nil
+//@   modifies maps
+//@   ensures missingRoot [C08]: fsMissingDir(fpJoin2(dv.targetDir, specNodePath(root))) ==> result2 != nil && isType(result2, verifyError)
+//@   ensures lists [C08]: !fsMissingDir(fpJoin2(dv.targetDir, specNodePath(root))) && result2 == nil ==> (forall x string :: {contains(result1, x)} {specPathIn(dv.targetDir, root, x)} contains(result1, x) == (specPathIn(dv.targetDir, root, x) && !fsEntryUnder(fpJoin2(dv.targetDir, specNodePath(root)), x))) && (forall x string :: {contains(result0, x)} {fsEntryUnder(fpJoin2(dv.targetDir, specNodePath(root)), x)} contains(result0, x) == (fsEntryUnder(fpJoin2(dv.targetDir, specNodePath(root)), x) && !specPathIn(dv.targetDir, root, x)))
+
+//@ func gtree.defaultVerifierSimple.handleErr
+//@   requires nn: dv != nil
+//@   ensures verdict [C08]: (result == nil) == !((dv.strict && len(extra) != 0) || len(noExists) != 0)
+//@   ensures lists [C08]: result != nil ==> isType(result, verifyError) && as(result, verifyError).strict == dv.strict && as(result, verifyError).extra == extra && as(result, verifyError).noExists == noExists
+
+// rootMatches(dv, r): every node path of r's subtree is an entry of the walked directory and, in strict mode, nothing else is.
+//@ pred rootMatches(dv *defaultVerifierSimple, r *Node): !fsMissingDir(fpJoin2(dv.targetDir, specNodePath(r))) && (forall x string :: {specPathIn(dv.targetDir, r, x)} specPathIn(dv.targetDir, r, x) ==> fsEntryUnder(fpJoin2(dv.targetDir, specNodePath(r)), x)) && (dv.strict ==> (forall x string :: {fsEntryUnder(fpJoin2(dv.targetDir, specNodePath(r)), x)} fsEntryUnder(fpJoin2(dv.targetDir, specNodePath(r)), x) ==> specPathIn(dv.targetDir, r, x)))
+
+//@ func gtree.defaultVerifierSimple.verify
+//@   requires nn: dv != nil
+//@   requires roots: forall k int :: {roots[k]} 0 <= k && k < len(roots) ==> roots[k] != nil
+//@   modifies maps
+//@   ensures ok [C08]: result == nil ==> (forall k int :: {roots[k]} 0 <= k && k < len(roots) ==> rootMatches(dv, roots[k]))
+//@ loop gtree.defaultVerifierSimple.verify#1
+//@   invariant sofar: forall k int :: {roots[k]} 0 <= k && k < $i ==> rootMatches(dv, roots[k])
+
+// ---------------------------------------------------------------------------------------------
+// Verify routes of treeSimple and the entry points
+
+//@ func gtree.treeSimple.verify
+//@   requires ok: simpleTreeOK(t, cfg)
+//@   modifies Node.children, Node.parent, Node.brnch.value, Node.brnch.path, list.List.view, list.Element.backOf, counter.n, bufio.Scanner.pos, bufio.Scanner.failed, markdown.Parser.isSharpRoot, markdown.Parser.spaces, markdown.Parser.sep, defaultGrowerSimple.enabledValidation, maps
+//@   ensures ok [C08]: cfg.encode == encodeDefault && result == nil ==> (exists rs []*Node :: {witness(roots)} allRootsT(rs) && allRoots(rs) && (forall k int :: {rs[k]} 0 <= k && k < len(rs) ==> validated(rs[k]) && rootMatches(as(t.verifier, defaultVerifierSimple), rs[k])))
+//@   ensures fsframe [C08]: fsOps == old(fsOps) && fsFailed == old(fsFailed)
+
+//@ func gtree.treeSimple.verifyProgrammably
+//@   requires ok: simpleTreeOK(t, cfg) && root != nil && root.hierarchy == 1
+//@   modifies Node.brnch.value, Node.brnch.path, defaultGrowerSimple.enabledValidation, maps
+//@   ensures ok [C08,C03]: cfg.encode == encodeDefault && result == nil ==> validated(root) && rootMatches(as(t.verifier, defaultVerifierSimple), root)
+//@   ensures fsframe [C08]: fsOps == old(fsOps) && fsFailed == old(fsFailed)
+
+//@ func gtree.treePipeline.verify
+//@   assumed
+//@   modifies Node.children, Node.parent, Node.brnch.value, Node.brnch.path, list.List.view, list.Element.backOf, counter.n, bufio.Scanner.pos, bufio.Scanner.failed, markdown.Parser.isSharpRoot, markdown.Parser.spaces, markdown.Parser.sep, defaultGrowerSimple.enabledValidation, maps
+//@ func gtree.treePipeline.verifyProgrammably
+//@   assumed
+//@   modifies Node.brnch.value, Node.brnch.path, defaultGrowerSimple.enabledValidation, maps
+
+//@ contract fromMarkdownVerify
+//@   modifies Node.children, Node.parent, Node.brnch.value, Node.brnch.path, list.List.view, list.Element.backOf, counter.n, bufio.Scanner.pos, bufio.Scanner.failed, markdown.Parser.isSharpRoot, markdown.Parser.spaces, markdown.Parser.sep, defaultGrowerSimple.enabledValidation, maps
+//@   ensures fsframe [C08,C12]: fsOps == old(fsOps) && fsFailed == old(fsFailed)
+//@ applies fromMarkdownVerify to gtree.VerifyFromMarkdown, gtree.Verify
+
+//@ contract fromRootVerify
+//@   modifies Node.brnch.value, Node.brnch.path, defaultGrowerSimple.enabledValidation, maps, counter.n
+//@   ensures nilnode [C03]: root == nil ==> result == ErrNilNode
+//@   ensures notroot [C03]: root != nil && root.hierarchy != 1 ==> result == ErrNotRoot
+//@   ensures fsframe [C08,C12]: fsOps == old(fsOps) && fsFailed == old(fsFailed)
+//@ applies fromRootVerify to gtree.VerifyFromRoot, gtree.VerifyProgrammably
+
+// ---------------------------------------------------------------------------------------------
+// Dry-run report (colorizeSpreaderSimple)
+
+// specColor: the colour wrapping of s (identity when colour output is disabled); opaque in the logic.
+//@ spec gtree.specColor
+//@   opaque
+func specColor(c *color.Color, s string) string { return c.Sprint(s) }
+
+// specFmtCounts: the summary line; opaque in the logic.
+//@ spec gtree.specFmtCounts
+//@   opaque
+func specFmtCounts(d, f int) string { return fmt.Sprintf("%d directories, %d files", d, f) }
+
+//@ spec gtree.specCountFiles
+//@   requires nn: n != nil
+//@   decreases down(n), 1, 0
+func specCountFiles(ext []string, n *Node) int {
+	if specIsFile(ext, n) {
+		return 1 + specCountFilesKids(ext, n, len(n.children))
+	}
+	return specCountFilesKids(ext, n, len(n.children))
+}
+
+//@ spec gtree.specCountFilesKids
+//@   requires nn: n != nil
+//@   decreases down(n), 0, i
+func specCountFilesKids(ext []string, n *Node, i int) int {
+	if i <= 0 || i > len(n.children) {
+		return 0
+	}
+	return specCountFilesKids(ext, n, i-1) + specCountFiles(ext, n.children[i-1])
+}
+
+//@ spec gtree.specCountDirs
+//@   requires nn: n != nil
+//@   decreases down(n), 1, 0
+func specCountDirs(ext []string, n *Node) int {
+	if specIsFile(ext, n) {
+		return specCountDirsKids(ext, n, len(n.children))
+	}
+	return 1 + specCountDirsKids(ext, n, len(n.children))
+}
+
+//@ spec gtree.specCountDirsKids
+//@   requires nn: n != nil
+//@   decreases down(n), 0, i
+func specCountDirsKids(ext []string, n *Node, i int) int {
+	if i <= 0 || i > len(n.children) {
+		return 0
+	}
+	return specCountDirsKids(ext, n, i-1) + specCountDirs(ext, n.children[i-1])
+}
+
+// specDry: the dry-run tree text of the subtree of n (the plain text with every name colour-wrapped by kind).
+//@ spec gtree.specDry
+//@   requires nn: n != nil
+//@   decreases down(n), 1, 0
+func specDry(fileColor, dirColor *color.Color, ext []string, n *Node) string {
+	return specDryLine(fileColor, dirColor, ext, n) + specDryKids(fileColor, dirColor, ext, n, len(n.children))
+}
+
+func specDryName(fileColor, dirColor *color.Color, ext []string, n *Node) string {
+	if specIsFile(ext, n) {
+		return specColor(fileColor, n.name)
+	}
+	return specColor(dirColor, n.name)
+}
+
+func specDryLine(fileColor, dirColor *color.Color, ext []string, n *Node) string {
+	if n.hierarchy == 1 {
+		return specDryName(fileColor, dirColor, ext, n) + "\n"
+	}
+	return n.brnch.value + " " + specDryName(fileColor, dirColor, ext, n) + "\n"
+}
+
+//@ spec gtree.specDryKids
+//@   requires nn: n != nil
+//@   decreases down(n), 0, i
+func specDryKids(fileColor, dirColor *color.Color, ext []string, n *Node, i int) string {
+	if i <= 0 || i > len(n.children) {
+		return ""
+	}
+	return specDryKids(fileColor, dirColor, ext, n, i-1) + specDry(fileColor, dirColor, ext, n.children[i-1])
+}
+
+// specDryReport: per root the tree text, a newline, the counts line.
+//@ spec gtree.specDryReport
+//@   decreases i
+func specDryReport(fileColor, dirColor *color.Color, ext []string, roots []*Node, i int) string {
+	if i <= 0 || i > len(roots) {
+		return ""
+	}
+	return specDryReport(fileColor, dirColor, ext, roots, i-1) + specDry(fileColor, dirColor, ext, roots[i-1]) + "\n" + specFmtCounts(specCountDirs(ext, roots[i-1]), specCountFiles(ext, roots[i-1])) + "\n"
+}
+
+//@ pred colorizeOK(cs *colorizeSpreaderSimple): cs != nil && cs.fileConsiderer != nil && cs.fileCounter != nil && cs.dirCounter != nil && cs.fileCounter != cs.dirCounter && cs.fileColor != nil && cs.dirColor != nil
+
+//@ func gtree.colorizeSpreaderSimple.colorize
+//@   requires ok: colorizeOK(cs) && current != nil
+//@   modifies cs.fileCounter.n, cs.dirCounter.n
+//@   ensures name [C09]: result == specDryName(cs.fileColor, cs.dirColor, cs.fileConsiderer.extensions, current)
+//@   ensures file [C09]: specIsFile(cs.fileConsiderer.extensions, current) ==> cs.fileCounter.n == old(cs.fileCounter.n) + 1 && cs.dirCounter.n == old(cs.dirCounter.n)
+//@   ensures dir [C09]: !specIsFile(cs.fileConsiderer.extensions, current) ==> cs.dirCounter.n == old(cs.dirCounter.n) + 1 && cs.fileCounter.n == old(cs.fileCounter.n)
+
+//@ func gtree.colorizeSpreaderSimple.spreadBranch
+//@   requires ok: colorizeOK(cs) && current != nil
+//@   modifies cs.fileCounter.n, cs.dirCounter.n
+//@   decreases down(current)
+//@   ensures text [C09]: result == specDry(cs.fileColor, cs.dirColor, cs.fileConsiderer.extensions, current)
+//@   ensures counts [C09]: cs.fileCounter.n == old(cs.fileCounter.n) + specCountFiles(cs.fileConsiderer.extensions, current) && cs.dirCounter.n == old(cs.dirCounter.n) + specCountDirs(cs.fileConsiderer.extensions, current)
+//@ loop gtree.colorizeSpreaderSimple.spreadBranch#1
+//@   invariant text: ret == specDryLine(cs.fileColor, cs.dirColor, cs.fileConsiderer.extensions, current) ++ specDryKids(cs.fileColor, cs.dirColor, cs.fileConsiderer.extensions, current, $i)
+//@   invariant counts: cs.fileCounter.n == old(cs.fileCounter.n) + (specIsFile(cs.fileConsiderer.extensions, current) ? 1 : 0) + specCountFilesKids(cs.fileConsiderer.extensions, current, $i) && cs.dirCounter.n == old(cs.dirCounter.n) + (specIsFile(cs.fileConsiderer.extensions, current) ? 0 : 1) + specCountDirsKids(cs.fileConsiderer.extensions, current, $i)
+
+//@ func gtree.colorizeSpreaderSimple.summary
+//@   requires ok: colorizeOK(cs)
+//@   ensures counts [C09]: result == specFmtCounts(cs.dirCounter.n, cs.fileCounter.n)
+
+//@ func gtree.colorizeSpreaderSimple.write
+//@   modifies out, wfail
+//@   ensures ok [C09,C14]: result == nil ==> out[w] == old(out[w]) ++ in && wfail == old(wfail)
+//@   ensures fail [C14]: result != nil ==> wfail
+//@   ensures frame: forall v any :: {out[v]} v != w ==> out[v] == old(out[v])
+//@   ensures sticky: old(wfail) ==> wfail
